@@ -674,6 +674,137 @@ pub fn check_mix(case: &MixCase, ctx: &mut Ctx) {
     ctx.nontrivial_if(intrusions > 0);
 }
 
+
+// ------------------------------------------------------------------------------------------------
+// section large_register: "a stored register only ever grows: it is the union of all permitted
+// operations delivered" also holds when the held version and the delivered one are LARGE and mostly
+// overlap (each far above half of the 1024-entry limit, their union far below it) — the way clients
+// deliver updates: the whole register again plus the new operations.
+// ------------------------------------------------------------------------------------------------
+
+const LARGE_POOL: usize = 720;
+
+#[derive(Clone, Debug, Serialize, Deserialize)]
+pub struct LargeRegCase {
+    /// the first (paid or replicated) delivery holds ops[0..first]
+    pub first: u16,
+    pub first_replicated: bool,
+    /// further deliveries: ops[from..to] by path
+    pub later: Vec<(u16, u16, Path)>,
+    /// 2-entry read cache; the record is pushed out of it and read back at the end
+    pub cold_read: bool,
+}
+
+fn large_reg_strategy() -> BoxedStrategy<LargeRegCase> {
+    let later = (0u16..=60, 0u16..=120, prop_oneof![2 => Just(Path::Unpaid), 2 => Just(Path::Replicated), 1 => Just(Path::Paid)]);
+    (500u16..=690, any::<bool>(), proptest::collection::vec(later, 1..3), prop_oneof![3 => Just(false), 1 => Just(true)])
+        .prop_map(|(first, first_replicated, later, cold_read)| {
+            // every later version starts near the beginning (large overlap) and ends a little before or after
+            // the end of what is held, so that some bring new operations and some bring none
+            let mut end = first;
+            let later = later
+                .into_iter()
+                .map(|(from, ahead, path)| {
+                    let to = (end as i32 - 40 + ahead as i32).clamp(from as i32 + 1, LARGE_POOL as i32) as u16;
+                    end = end.max(to);
+                    (from, to, path)
+                })
+                .collect();
+            LargeRegCase { first, first_replicated, later, cold_read }
+        })
+        .boxed()
+}
+
+fn large_pool() -> &'static Vec<RegisterOp> {
+    static POOL: std::sync::OnceLock<Vec<RegisterOp>> = std::sync::OnceLock::new();
+    POOL.get_or_init(|| fix::register_ops(OWNER + 7, REG_META + 1, LARGE_POOL, &[OWNER + 7]))
+}
+
+pub fn check_large_reg(case: &LargeRegCase, ctx: &mut Ctx) {
+    let pool = large_pool();
+    let base = fix::register_base(OWNER + 7, REG_META + 1, None);
+    let key = fix::register_key(OWNER + 7, REG_META + 1);
+    let mut w = World {
+        cl: Cluster::new(&[1], if case.cold_read { Some((16 * 1024, 2)) } else { None }),
+        key: key.clone(),
+        random_key: RecordKey::new(&fix::h32("c07-random", &[1])),
+        foreign_key: fix::register_key(FOREIGN, REG_META + 1),
+        reg_ops: vec![],
+    };
+    let record_of = |w: &mut World, from: usize, to: usize, path: Path, idx: usize| -> Record {
+        let reg = fix::signed_register(&base, OWNER + 7, pool[from..to].to_vec());
+        let value = match path {
+            Path::Paid => {
+                let proof = w.proof_for(Kind::Reg, reg.address().xorname(), idx as u8);
+                try_serialize_record(&(proof, reg.clone()), RecordKind::RegisterWithPayment).unwrap().to_vec()
+            }
+            _ => try_serialize_record(&reg, RecordKind::Register).unwrap().to_vec(),
+        };
+        fix::record(key.clone(), value)
+    };
+    let held_ops = |w: &mut World| -> Option<BTreeSet<RegisterOp>> { w.cl.local_get(0, &key).and_then(|r| try_deserialize_record::<SignedRegister>(&r).ok()).map(|r| r.ops().clone()) };
+    let mut want: BTreeSet<RegisterOp> = BTreeSet::new();
+    let first = (case.first as usize).clamp(1, LARGE_POOL);
+    let mut steps: Vec<(usize, usize, Path)> = vec![(0, first, if case.first_replicated { Path::Replicated } else { Path::Paid })];
+    steps.extend(case.later.iter().map(|(f, t, p)| ((*f as usize).min(LARGE_POOL - 1), (*t as usize).clamp(*f as usize + 1, LARGE_POOL), *p)));
+    let (mut beyond, mut grew) = (0, 0);
+    for (i, (from, to, path)) in steps.iter().enumerate() {
+        let rec = record_of(&mut w, *from, *to, *path, i);
+        let op = w.start(rec, *path);
+        w.cl.settle_op(&op);
+        w.cl.settle();
+        if w.cl.inconclusive {
+            ctx.label("inconclusive_timeout");
+            return;
+        }
+        let res = op.take();
+        let before = want.len();
+        want.extend(pool[*from..*to].iter().cloned());
+        if i > 0 {
+            if before + (to - from) > 1024 {
+                beyond += 1;
+            }
+            if want.len() > before {
+                grew += 1;
+            }
+        }
+        let have = held_ops(&mut w);
+        if i == 0 && have.as_ref() != Some(&want) {
+            // a valid first upload is the harness's precondition
+            ctx.precondition_failed("valid_first_upload_not_stored", format!("first delivery of {first} entries by {path:?}: {res:?}"));
+            return;
+        }
+        if have.as_ref() != Some(&want) {
+            ctx.fail(
+                "large_register_is_not_the_union_of_what_was_delivered",
+                format!(
+                    "delivery {i} ({path:?}) of entries {from}..{to} onto a held register of {before} entries returned {res:?}; the node holds {:?} entries, the union of everything delivered has {} (limit 1024)",
+                    have.as_ref().map(|h| h.len()),
+                    want.len()
+                ),
+            );
+            return;
+        }
+    }
+    if case.cold_read {
+        // push the register out of the 2-entry read cache and read it back from disk
+        for j in 0..3u64 {
+            let c = fix::chunk_record(&fix::chunk(9100 + j, 30));
+            w.cl.seed_record(0, c);
+        }
+        w.cl.settle();
+        if held_ops(&mut w).as_ref() != Some(&want) {
+            ctx.fail("large_register_on_disk_is_not_the_union_of_what_was_delivered", format!("after leaving the read cache the node holds {:?} entries, delivered union {}", held_ops(&mut w).map(|h| h.len()), want.len()));
+        }
+    }
+    ctx.label_if(beyond > 0, "sizes_add_up_beyond_the_entry_limit");
+    ctx.label_if(grew > 0, "update_brings_new_operations");
+    ctx.label_if(case.cold_read, "cold_read");
+    ctx.nontrivial_if(beyond > 0 && grew > 0);
+    ctx.canon = Some(format!("{case:?}"));
+    ctx.sample = Some(serde_json::json!({"case": case, "union": want.len()}));
+}
+
 pub fn run(cfg: RunCfg) {
     let mut rep = Report::new(cfg, "exploration");
     rep.rule = "C07: per kind (scratchpad / transactions / register) histories of <=9 deliveries for one owner with generated counters, signature validity, signer, key, path (paid / unpaid / replicated); flagged neighbours run concurrently under a generated command schedule.".into();
@@ -691,6 +822,11 @@ pub fn run(cfg: RunCfg) {
         rep, "same_key_other_kind", (1_200, 20_000), 16,
         "an owner's scratchpad, transaction set and the chunk of the owner's public-key bytes share one record key: 1-2 valid deliveries of one kind establish the record, then 1..5 deliveries of the other kinds (paid / unpaid / replicated) and of the same kind; the stored record must never be replaced by another kind, shrink or regress. non-trivial: >= 1 delivery of another kind after the record is established",
         mix_strategy, check_mix
+    );
+    vh_core::section!(
+        rep, "large_register", (24, 600), 12,
+        "a held register of 500-690 entries (paid upload or replicated copy), then 1-2 deliveries (unpaid / replicated / paid) of large, mostly overlapping versions, some with new operations: after every delivery the node holds exactly the union of what was delivered; a quarter of the cases read it back from disk at the end. non-trivial: held + delivered sizes add up beyond the 1024-entry limit and the delivery brings new operations",
+        large_reg_strategy, check_large_reg
     );
     vh_core::fuzz_section!(rep, "updates", case_strategy, check, "sec_node", "node", 8_000, 300, 12);
     vh_core::fuzz_section!(rep, "same_key_other_kind", mix_strategy, check_mix, "sec_node", "node", 3_000, 200, 8);
